@@ -52,9 +52,22 @@ def _split(rnd, total, stoich):
     return xs
 
 
-def _mk_species(kind, name, h, s, cp, T, phase='G', cat=None):
+def _tform(T, form):
+    """The same temperature as a float, an int, or a NumPy scalar (all are accepted inputs)."""
+    import numpy as np
+    if form == 'int':
+        return int(round(T))
+    if form == 'np':
+        return np.float64(T)
+    if form == 'npint':
+        return np.int64(int(round(T)))
+    return float(T)
+
+
+def _mk_species(kind, name, h, s, cp, T, phase='G', cat=None, n_sites=None):
+    T = float(T)
     if kind == 'nasa':
-        return L.nasa(name, h, s, cp=cp, T_ref=T, phase=phase, cat_site=cat)
+        return L.nasa(name, h, s, cp=cp, T_ref=T, phase=phase, cat_site=cat, n_sites=n_sites)
     if kind == 'shomate':
         return L.shomate(name, h, s, cp=cp, T_ref=T, phase=phase)
     # statmech: H/RT(T) is set through the potential energy; S/R is what the modes give
@@ -62,7 +75,7 @@ def _mk_species(kind, name, h, s, cp, T, phase='G', cat=None):
     wn = [200. + 37. * ((len(name) * 7 + i * 13) % 40) for i in range(3)]
     probe = L.statmech(name, 0.0, wn)
     v = float(probe.get_HoRT(T=T))
-    return L.statmech(name, (h - v) * c.kb('eV/K') * T, wn)
+    return L.statmech(name, (h - v) * c.kb('eV/K') * T, wn, phase=phase)
 
 
 def _phases_for(cls, gas, surf_by_site, sden, bulk=()):
@@ -126,13 +139,14 @@ def exec_clamp_tlc(case):
     has_ts = bool(c['hasTS'])
     rx = L.reaction(cls, [sp[0]], [1.], [sp[1]], [1.], [sp[2]] if has_ts else None, [1.] if has_ts else None)
     evs, mism = [], []
-    units = [L.R_UNITS[case['cseed'] % len(L.R_UNITS)]]
+    units = [case.get('unit') or L.R_UNITS[case['cseed'] % len(L.R_UNITS)]]
     got = clamp_events(rx, cls, has_ts, T, 1.0, units, evs)
     for d in ('fwd', 'rev'):
         g = got.get((q, 'dimless', d))
         if g is None or g != float(c[d]):
             mism.append({'getter': 'get_%soRT_act' % q, 'dir': d, 'tlc': c[d], 'code': g})
-    return evs, mism, {'cls': cls, 'q': q, 'ts': 'species' if has_ts else 'none'}
+    return evs, mism, {'cls': cls, 'q': q, 'ts': 'species' if has_ts else 'none',
+                       'cov': ['runit:' + u for u in units]}
 
 
 def _regime_ts(rnd, regime, r, p):
@@ -161,9 +175,12 @@ def exec_clamp_rand(case):
     cls = case['cls']
     regH, regG = case['regH'], case['regG']
     has_ts = regH != 'none'
-    T = rnd.choice([298.15, rnd.uniform(250., 1400.)])
+    tform = case.get('tform', 'float')
+    T = _tform(rnd.choice([298.15, rnd.uniform(250., 1400.)]), tform)
     P = rnd.choice([1.0, 0.1, 10.0, 1.01325])
-    kinds = ['nasa', 'shomate'] if cls == 'ChemkinReaction' else ['nasa', 'shomate', 'statmech']
+    ctor = case.get('ctor', 'init')
+    int_st = case.get('int_st', False)
+    kinds = ['nasa', 'shomate', 'statmech']
     hr, hp = _rand_state(rnd)
     gr, gp = _rand_state(rnd)
     targets = {'r': (hr, gr), 'p': (hp, gp)}
@@ -173,7 +190,7 @@ def exec_clamp_rand(case):
     states, surf, gas = {}, [], []
     for key in (['r', 'p', 'ts'] if has_ts else ['r', 'p']):
         n = rnd.randint(1, 3) if key != 'ts' else rnd.randint(1, 2)
-        st = [rnd.choice([0.5, 1., 1., 2., 3.]) for _ in range(n)]
+        st = [rnd.choice([1, 1, 2, 3] if int_st else [0.5, 1., 1., 2., 3.]) for _ in range(n)]
         hs = _split(rnd, targets[key][0], st)
         ss = _split(rnd, targets[key][0] - targets[key][1], st)       # S/R = H/RT - G/RT
         sps = []
@@ -189,12 +206,15 @@ def exec_clamp_rand(case):
         states[key] = (sps, st)
     if cls == 'SurfaceReaction':
         L.omkm_phases(gas, {'terrace': surf}, {'terrace': site.site_density})
-    rx = L.reaction(cls, states['r'][0], states['r'][1], states['p'][0], states['p'][1],
-                    states['ts'][0] if has_ts else None, states['ts'][1] if has_ts else None)
+    build = L.from_string if ctor == 'from_string' else L.reaction
+    rx = build(cls, states['r'][0], states['r'][1], states['p'][0], states['p'][1],
+               states['ts'][0] if has_ts else None, states['ts'][1] if has_ts else None)
     evs = []
-    units = rnd.sample(L.R_UNITS, 2)
+    units = case.get('units') or rnd.sample(L.R_UNITS, 2)
     clamp_events(rx, cls, has_ts, T, P, units, evs)
-    return evs, [], {'cls': cls, 'ts': 'species' if has_ts else 'none'}
+    return evs, [], {'cls': cls, 'ts': 'species' if has_ts else 'none',
+                     'cov': ['runit:' + u for u in units] + ['T:' + tform, 'ctor:%s:%s' % (cls, ctor),
+                                                             'stoich:' + ('int' if int_st else 'float')]}
 
 
 # --------------------------------------------------------------------------
@@ -205,13 +225,18 @@ def exec_bep(case):
     from pmutt import constants as c
     rnd = random.Random(case['cseed'])
     desc, bcls, cls = case['desc'], case['bcls'], case['cls']
+    import numpy as np
     slope, icpt = case['slope'], case['icpt']
+    stype = case.get('stype', 'float')            # how slope / intercept are handed to the constructor
+    if stype == 'int':
+        slope, icpt = int(slope), int(icpt)
+    elif stype == 'np':
+        slope, icpt = np.float64(slope), np.float64(icpt)
     uses_E = desc.endswith('_E')
-    T = rnd.choice([298.15, rnd.uniform(250., 1200.)])
+    tform = case.get('tform', 'float')
+    T = _tform(rnd.choice([298.15, rnd.uniform(250., 1200.)]), tform)
     # energy descriptors need species with an electronic energy (StatMech)
     kinds = ['statmech'] if (uses_E or case.get('uh')) else ['nasa', 'shomate', 'statmech']
-    if cls == 'ChemkinReaction':
-        kinds = [k for k in kinds if k != 'statmech'] or ['nasa']
     hr, hp = _rand_state(rnd)
     sides = {}
     surf = []
@@ -231,8 +256,27 @@ def exec_bep(case):
     b = L.bep(bcls, 'BEP1', slope, icpt, desc)
     if cls == 'SurfaceReaction':
         L.omkm_phases([], {'terrace': surf}, {'terrace': 2.5e-9})
-    rx = L.reaction(cls, sides['r'][0], sides['r'][1], sides['p'][0], sides['p'][1], [b], [1.])
+    # the OpenMKM route: the reaction names its direction / id and registers itself with the BEP
+    okw = {}
+    omkm = case.get('omkm')
+    if cls == 'SurfaceReaction' and omkm:
+        okw = {'direction': omkm[0], 'id': omkm[1]}
+        if bcls == 'omkm':
+            b.direction = omkm[0]
+    ctor = case.get('ctor', 'init')
+    build = L.from_string if ctor == 'from_string' else L.reaction
+    rx = build(cls, sides['r'][0], sides['r'][1], sides['p'][0], sides['p'][1], [b], [1.], **okw)
     evs, mism = [], []
+    cov = ['bep:%s:%s' % (desc, cls), 'bepcls:' + bcls, 'T:' + tform, 'ctor:%s:%s' % (cls, ctor),
+           'slope:' + case.get('skind', 'interior'), 'icpt:' + case.get('ikind', 'interior'), 'stype:' + stype]
+    if okw:
+        cov.append('omkm:%s:%s' % (omkm[0], type(omkm[1]).__name__))
+        if bcls == 'omkm':
+            if getattr(rx, 'bep', None) is not b:
+                mism.append({'getter': 'SurfaceReaction.bep', 'tlc': 'the BEP of the transition state', 'code': repr(getattr(rx, 'bep', None))})
+            reg = {'synthesis': b.synthesis_reactions, 'cleavage': b.cleavage_reactions}.get(omkm[0])
+            if reg is not None and not any(x is rx for x in reg):
+                mism.append({'getter': 'BEP.%s_reactions' % omkm[0], 'tlc': 'contains the reaction', 'code': len(reg)})
     # (S->C) adjusted slope table of TLC, exact for slopes 0, 1/2, 1
     for sc in case.get('table', []):
         try:
@@ -252,8 +296,9 @@ def exec_bep(case):
         'products_E': lambda: rx.get_E_state(state='products', units=kc, T=T)}
     D = _call(evs, 'descriptor', meaning[desc])
     if D is None:
-        return evs, mism, {'desc': desc, 'cls': cls}
-    units = [kc] + rnd.sample([u for u in L.ENERGY_UNITS if u != kc], 2)
+        return evs, mism, {'desc': desc, 'cls': cls, 'cov': cov}
+    units = [kc] + (case.get('units') or rnd.sample([u for u in L.ENERGY_UNITS if u != kc], 2))
+    cov += ['eunit:' + u for u in units]
     for d, rev in (('fwd', False), ('rev', True)):
         for u in units:
             v = _call(evs, 'BEP.get_E_act', lambda: b.get_E_act(units=u, reaction=rx, rev=rev, T=T))
@@ -283,16 +328,22 @@ def exec_bep(case):
         # via the reaction's transition-state enthalpy
         for d, rev, direct in (('fwd', False, ef), ('rev', True, er)):
             init = 'products' if rev else 'reactants'
+            route = case.get('via', 'delta')
+            if route == 'H' and cls != 'Reaction':
+                route = 'delta'                      # the H getters of the kinetic-file classes are clamped
+            cov.append('via:%s:%s:%s' % (cls, route, 'dimless' if form == 'dimless' else 'units'))
             if form == 'dimless':
-                via = _call(evs, 'get_HoRT_act', lambda: rx.get_delta_HoRT(rev=rev, act=True, T=T)
-                            if cls != 'Reaction' else rx.get_HoRT_act(rev=rev, T=T))
+                via = _call(evs, 'get_HoRT_act', {
+                    'delta': lambda: rx.get_delta_HoRT(rev=rev, act=True, T=T),
+                    'H': lambda: rx.get_HoRT_act(rev=rev, T=T),
+                    'E': lambda: rx.get_EoRT_act(rev=rev, T=T)}[route])
                 hts = _call(evs, 'get_HoRT_state', lambda: rx.get_HoRT_state(state='ts', T=T))
                 hin = _call(evs, 'get_HoRT_state', lambda: rx.get_HoRT_state(state=init, T=T))
             else:
-                via = _call(evs, 'get_H_act', lambda: rx.get_delta_H(units=form, T=T, rev=rev, act=True)
-                            if cls != 'Reaction' else
-                            (rx.get_H_act(units=form, T=T, rev=rev) if case['cseed'] % 2 else
-                             rx.get_E_act(units=form, T=T, rev=rev)))
+                via = _call(evs, 'get_H_act', {
+                    'delta': lambda: rx.get_delta_H(units=form, T=T, rev=rev, act=True),
+                    'H': lambda: rx.get_H_act(units=form, T=T, rev=rev),
+                    'E': lambda: rx.get_E_act(units=form, T=T, rev=rev)}[route])
                 hts = _call(evs, 'get_H_state', lambda: rx.get_H_state(state='ts', units=form, T=T))
                 hin = _call(evs, 'get_H_state', lambda: rx.get_H_state(state=init, units=form, T=T))
             if None in (via, hts, hin):
@@ -301,8 +352,17 @@ def exec_bep(case):
                         'via': to_dec(via), 'hts': to_dec(hts), 'hinit': to_dec(hin)})
     # internal energy and enthalpy offsets (species with an internal energy only)
     if has_E:
-        for form in ('dimless', 'kcal/mol', 'J/mol'):
-            if form == 'dimless':
+        for form in ('dimless', 'kcal/mol', 'J/mol', 'act', 'act:kcal/mol'):
+            cov.append('uh:' + form)
+            if form == 'act':                        # the activation families: U_act vs H through the TS
+                uts = _call(evs, 'get_UoRT_act', lambda: rx.get_UoRT_act(rev=False, T=T))
+                hts = _call(evs, 'get_delta_HoRT', lambda: rx.get_delta_HoRT(rev=False, act=True, T=T))
+                ur, hr_ = 0.0, 0.0
+            elif form == 'act:kcal/mol':
+                uts = _call(evs, 'get_U_act', lambda: rx.get_U_act(units='kcal/mol', T=T, rev=False))
+                hts = _call(evs, 'get_delta_H', lambda: rx.get_delta_H(units='kcal/mol', T=T, rev=False, act=True))
+                ur, hr_ = 0.0, 0.0
+            elif form == 'dimless':
                 uts = _call(evs, 'BEP.get_UoRT', lambda: b.get_UoRT(reaction=rx, T=T))
                 hts = _call(evs, 'BEP.get_HoRT', lambda: b.get_HoRT(reaction=rx, T=T))
                 ur = _call(evs, 'get_UoRT_state', lambda: rx.get_UoRT_state(state='reactants', T=T))
@@ -318,8 +378,10 @@ def exec_bep(case):
                         'hts': to_dec(hts), 'hr': to_dec(hr_)})
     # clamped getters of the kinetic-file classes on a BEP transition state
     if cls != 'Reaction':
-        clamp_events(rx, cls, True, T, 1.0, [rnd.choice(L.R_UNITS)], evs)
-    return evs, mism, {'desc': desc, 'cls': cls, 'bcls': bcls, 'ts': 'bep'}
+        ru = case.get('runit') or rnd.choice(L.R_UNITS)
+        cov.append('runit:' + ru)
+        clamp_events(rx, cls, True, T, 1.0, [ru], evs)
+    return evs, mism, {'desc': desc, 'cls': cls, 'bcls': bcls, 'ts': 'bep', 'cov': cov}
 
 
 # --------------------------------------------------------------------------
@@ -329,13 +391,25 @@ def _a_event(evs, cls, rx, T, rs, sdA, sdB, op, units, route, per_T, rev, m, m_v
     """Record A, A with every site density times ten, and the sensors."""
     from pmutt import constants as c
     kw = {'T': T}
+    if tags.get('omit_T'):                        # documented default: 298.15 K
+        kw = {}
+    uf = 1.0
     if cls != 'Reaction':
-        kw['sden_operation'] = op
-        kw['include_entropy'] = (route == 'entropy') or tags.get('no_ts', False)
+        if not tags.get('omit_op'):               # documented default of ChemkinReaction.get_A: 'sum'
+            kw['sden_operation'] = op
+        kw['include_entropy'] = (route in ('entropy', 'q')) or tags.get('no_ts', False)
         if cls == 'SurfaceReaction':
-            kw['units'] = units
-    if route == 'entropy':
-        kw.update({'use_q': False, 'm': m, 'rev': rev})
+            if isinstance(units, (list, tuple)):  # ('obj', quantity, length): a Units object
+                from pmutt.omkm.units import Units
+                kw['units'] = Units(quantity=units[1], length=units[2])
+                qu, au = units[1], units[2] + '2'
+            else:
+                kw['units'] = units
+                qu, au = units.split('/')
+            # mol/cm2 -> output units by the library's own tables (their content is C12's subject)
+            uf = c.convert_unit(initial='mol', final=qu) / c.convert_unit(initial='cm2', final=au)
+    if route in ('entropy', 'q'):
+        kw.update({'use_q': route == 'q', 'm': m, 'rev': rev})
     v = _call([], 'get_A', lambda: rx.get_A(**kw))
     ok = v is not None
     scale_sites(10.0)
@@ -357,12 +431,12 @@ def _a_event(evs, cls, rx, T, rs, sdA, sdB, op, units, route, per_T, rev, m, m_v
                 'dS': to_dec(dS), 'm': to_dec(m_val), 'x': to_dec(x), 'ex': to_dec(ex),
                 'rs': [[k, n] for (k, n) in rs], 'sdA': to_dec(sdA), 'sdB': to_dec(sdB), 'op': op,
                 'mw': to_dec(sum(sl) / len(sl)) if sl else [0, 0],
-                'uf': to_dec(L.a_unit_factor(units) if cls == 'SurfaceReaction' else 1.0),
+                'uf': to_dec(uf),
                 'ok': ok, 'val': to_dec(v) if ok else [0, 0],
                 'ok10': v10 is not None, 'val10': to_dec(v10) if v10 is not None else [0, 0]})
 
 
-def _build_site_reaction(rnd, cls, rs, has_ts, T, sdA, sdB, exact=False):
+def _build_site_reaction(rnd, cls, rs, has_ts, T, sdA, sdB, exact=False, n_sites=None, ctor='init'):
     """Reactants from a list of (kind, stoich); one product; optional transition state."""
     siteA = L.cat_site('PT', sdA, bulk='PTB(B)')
     siteB = L.cat_site('RU', sdB, bulk='RUB(B)')
@@ -388,7 +462,7 @@ def _build_site_reaction(rnd, cls, rs, has_ts, T, sdA, sdB, exact=False):
         else:
             site = siteA if k == 'surfA' else siteB
             sp = L.nasa('S%d(%s)' % (i, k[-1]), h, s, T_ref=T, phase='S',
-                        cat_site=site if cls == 'ChemkinReaction' else None)
+                        cat_site=site if cls == 'ChemkinReaction' else None, n_sites=n_sites)
             surf['terrace' if k == 'surfA' else 'step'].append(sp)
         reactants.append(sp)
         st.append(float(n))
@@ -407,7 +481,8 @@ def _build_site_reaction(rnd, cls, rs, has_ts, T, sdA, sdB, exact=False):
     if cls == 'SurfaceReaction':
         phases = L.omkm_phases(gas, {k: v for k, v in surf.items() if v}, {'terrace': sdA, 'step': sdB}, bulk)
     # two different bulk species of the same name cannot exist; at most two bulk reactants are built
-    rx = L.reaction(cls, reactants, st, [prod], [1.], [ts] if ts else None, [1.] if ts else None)
+    build = L.from_string if ctor == 'from_string' else L.reaction
+    rx = build(cls, reactants, st, [prod], [1.], [ts] if ts else None, [1.] if ts else None)
 
     def scale_sites(f):
         if cls == 'ChemkinReaction':
@@ -427,12 +502,20 @@ def exec_site(case):
     rs = [(k, int(n)) for k, n in case['rs']]
     has_ts = case['hasTS']
     exact = case.get('exact', False)
-    T = T_EXACT if exact else rnd.choice([298.15, rnd.uniform(250., 1400.)])
-    sdA = 10 ** rnd.uniform(-11, -8)
-    sdB = sdA if rnd.random() < 0.3 else 10 ** rnd.uniform(-11, -8)
+    tform = case.get('tform', 'float')
+    T = T_EXACT if exact else _tform(rnd.choice([298.15, rnd.uniform(250., 1400.)]), tform)
+    if case.get('omit_T'):
+        T = 298.15
+    # site densities: the ends of the documented range, their neighbours, the interior
+    sd_kind = case.get('sd', 'interior')
+    sdA = {'low': 1e-11, 'high': 1e-8, 'low+': 1.0000001e-11, 'high-': 9.999999e-9}.get(sd_kind) or 10 ** rnd.uniform(-11, -8)
+    sdB = sdA if rnd.random() < 0.3 else rnd.choice([1e-11, 1e-8, 10 ** rnd.uniform(-11, -8)])
     if sum(1 for k, n in rs if k == 'bulk') > 2:
         return [], [], {'cls': cls, 'skipped': 'more than two bulk reactants'}
-    rx, scale_sites = _build_site_reaction(rnd, cls, rs, has_ts, T, sdA, sdB, exact)
+    ctor = case.get('ctor', 'init')
+    n_sites = case.get('n_sites')
+    rx, scale_sites = _build_site_reaction(rnd, cls, rs, has_ts, float(T), sdA, sdB, exact, n_sites, ctor)
+    cov = ['T:' + tform, 'ctor:%s:%s' % (cls, ctor), 'sd:' + sd_kind, 'n_sites:%s' % n_sites]
     evs, mism = [], []
     n = sum(k for kind, k in rs if kind in ('surfA', 'surfB'))
     all_gas = all(k == 'gas' for k, _ in rs)
@@ -445,7 +528,7 @@ def exec_site(case):
             mism.append({'getter': '_get_n_surf', 'tlc': case['n'], 'code': got})
         if cls == 'ChemkinReaction' and bool(rx.gas_phase) != bool(case['gas']):
             mism.append({'getter': 'gas_phase', 'tlc': case['gas'], 'code': bool(rx.gas_phase)})
-    tags = {'cls': cls, 'n': n, 'gas': all_gas, 'ts': 'species' if has_ts else 'none'}
+    tags = {'cls': cls, 'n': n, 'gas': all_gas, 'ts': 'species' if has_ts else 'none', 'cov': cov}
     # A is defined by the property for gas-phase reactions (no site density) and for >= 1 surface reactant
     # and, for positivity only, for Chemkin surface reactions without an adsorbed reactant;
     # SurfaceReaction.get_A documents a ValueError when no reactant has a site density
@@ -453,23 +536,39 @@ def exec_site(case):
         tags['skipped'] = 'SurfaceReaction without surface reactant: documented ValueError'
         return evs, mism, tags
     tags['nosite'] = (n == 0 and not all_gas)
-    for op in (L.SDEN_OPS if case.get('all_ops', True) else [rnd.choice(L.SDEN_OPS)]):
-        units = rnd.choice(L.A_UNITS)
+    ulist = case.get('aunits') or [rnd.choice(L.A_UNITS)]
+    for j, op in enumerate(L.SDEN_OPS if case.get('all_ops', True) else [case.get('op') or rnd.choice(L.SDEN_OPS)]):
+        units = ulist[j % len(ulist)]
+        opt = {'omit_T': bool(case.get('omit_T')),
+               'omit_op': bool(case.get('omit_op')) and cls == 'ChemkinReaction' and op == 'sum'}
+        if cls == 'SurfaceReaction':
+            cov.append('aunit:' + ('Units:%s/%s2' % (units[1], units[2]) if isinstance(units, (list, tuple)) else units))
+        cov += ['op:%s:%s' % (cls, op), 'n:%s:%d' % (cls, n)]
+        if opt['omit_op']:
+            cov.append('op:default')
+        if opt['omit_T']:
+            cov.append('T:default')
         if has_ts and rnd.random() < 0.75:
             m = rnd.choice([0, 1, 2, None])
             m_val = float(sum(k for _, k in rs)) if m is None else float(m)
-            _a_event(evs, cls, rx, T, rs, sdA, sdB, op, units, 'entropy', True, False, m, m_val, scale_sites, tags)
+            route = 'q' if case.get('use_q') else 'entropy'
+            cov.append('Aroute:%s:%s' % (cls, route))
+            _a_event(evs, cls, rx, T, rs, sdA, sdB, op, units, route, True, False, m, m_val, scale_sites,
+                     dict(tags, **opt))
         else:
+            cov.append('Aroute:%s:%s' % (cls, 'nots' if not has_ts else 'noentropy'))
             _a_event(evs, cls, rx, T, rs, sdA, sdB, op, units, 'nots', True, False, 0, 0.0, scale_sites,
-                     dict(tags, no_ts=not has_ts))
+                     dict(tags, no_ts=not has_ts, **opt))
     return evs, mism, tags
 
 
 def exec_a_rand(case):
     """Reaction.get_A by the entropy route, both directions, all molecularity options."""
     rnd = random.Random(case['cseed'])
-    T = rnd.choice([298.15, rnd.uniform(250., 1400.)])
-    kinds = ['nasa', 'shomate', 'statmech']
+    tform = case.get('tform', 'float')
+    T = _tform(rnd.choice([298.15, rnd.uniform(250., 1400.)]), tform)
+    use_q = bool(case.get('use_q'))
+    kinds = ['statmech'] if use_q else ['nasa', 'shomate', 'statmech']
     sides = {}
     for key in ('r', 'p', 'ts'):
         n = rnd.randint(1, 2) if key != 'ts' else 1
@@ -483,12 +582,166 @@ def exec_a_rand(case):
     for rev in (False, True):
         for m in (0, 1, 2, None):
             m_val = float(sum(sides['p' if rev else 'r'][1])) if m is None else float(m)
-            _a_event(evs, 'Reaction', rx, T, [], 1.0, 1.0, 'sum', 'mol/cm2', 'entropy', False, rev, m, m_val,
-                     lambda f: None, {})
-    return evs, [], {'cls': 'Reaction', 'ts': 'species'}
+            _a_event(evs, 'Reaction', rx, T, [], 1.0, 1.0, 'sum', 'mol/cm2', 'q' if use_q else 'entropy', False,
+                     rev, m, m_val, lambda f: None, {})
+    return evs, [], {'cls': 'Reaction', 'ts': 'species',
+                     'cov': ['T:' + tform, 'Aroute:Reaction:%s' % ('q' if use_q else 'entropy')]}
 
 
-EXEC = {'clamp_tlc': exec_clamp_tlc, 'clamp_rand': exec_clamp_rand, 'bep': exec_bep,
+# --------------------------------------------------------------------------
+# what SurfaceReaction.to_omkm_yaml / to_cti hand to the kinetic-model file
+# --------------------------------------------------------------------------
+_OPT_VAL = {'ea': 12.5, 'a': 3.2e13, 'stick': 0.37, 'beta': 0.5}
+
+
+def _opt(case_c, key, rnd):
+    o = case_c[key]
+    if o == 'none':
+        return None
+    if o == 'zero':
+        return 0.0
+    return _OPT_VAL[key] * rnd.choice([1.0, 0.5, 2.0])
+
+
+def _num_of(v):
+    """number written in a YAML entry: a float, or '"<number> <units>"' when a Units object is used"""
+    if isinstance(v, str):
+        return float(v.strip('"').split()[0])
+    return float(v)
+
+
+def exec_handed(case):
+    import re
+    from pmutt import constants as c
+    from pmutt.omkm.units import Units
+    rnd = random.Random(case['cseed'])
+    hc = case['c']
+    ads = bool(hc['ads'])
+    method = hc['method']
+    T = rnd.choice([298.15, rnd.uniform(300., 1100.)])
+    P = rnd.choice([1.0, 1.01325, 5.0])
+    reg = case['reg']
+    has_ts = reg != 'none'
+    sd = 10 ** rnd.uniform(-11, -8)
+    hr, hp = _rand_state(rnd)
+    gr, gp = _rand_state(rnd)
+    tot = {'r': (hr, gr), 'p': (hp, gp)}
+    if has_ts:
+        tot['ts'] = (_regime_ts(rnd, reg, hr, hp), _regime_ts(rnd, reg, gr, gp))
+    if ads:
+        layout = {'r': [('GAS1', 'G', 1.), ('PT(S)', 'S', 1.)], 'p': [('A(S)', 'S', 1.)]}
+        rs = [('gas', 1), ('surfA', 1)]
+    elif case['cseed'] % 3 == 0:
+        layout = {'r': [('A(S)', 'S', 1.)], 'p': [('B(S)', 'S', 1.), ('PT(S)', 'S', 1.)]}
+        rs = [('surfA', 1)]
+    else:
+        layout = {'r': [('A(S)', 'S', 1.), ('B(S)', 'S', 2. if case['cseed'] % 3 == 1 else 1.)], 'p': [('C(S)', 'S', 1.)]}
+        rs = [('surfA', 1), ('surfA', int(layout['r'][1][2]))]
+    if has_ts:
+        layout['ts'] = [('TS1(S)', 'S', 1.)]
+    sides, gas, surf = {}, [], []
+    for key, lst in layout.items():
+        st = [x[2] for x in lst]
+        hs = _split(rnd, tot[key][0], st)
+        ss = _split(rnd, tot[key][0] - tot[key][1], st)
+        sps = []
+        for (nm, ph, n), h, s_ in zip(lst, hs, ss):
+            sp = _mk_species(rnd.choice(['nasa', 'shomate']), nm, h, s_, rnd.uniform(0., 4.), T, phase=ph)
+            (gas if ph == 'G' else surf).append(sp)
+            sps.append(sp)
+        sides[key] = (sps, st)
+    phases = L.omkm_phases(gas, {'terrace': surf}, {'terrace': sd})
+    given = {k: _opt(hc, k, rnd) for k in ('ea', 'a', 'stick', 'beta')}
+    rx = L.reaction('SurfaceReaction', sides['r'][0], sides['r'][1], sides['p'][0], sides['p'][1],
+                    sides['ts'][0] if has_ts else None, sides['ts'][1] if has_ts else None,
+                    is_adsorption=ads, A=given['a'], beta=given['beta'], Ea=given['ea'],
+                    sticking_coeff=given['stick'], use_motz_wise=bool(hc['mw']), id='r_%04d' % (case['cseed'] % 9999))
+    u = case['actunit']
+    qu, lu = case['aunit']
+    wkw = {'T': T, 'P': P, 'ads_act_method': method}
+    if case['uobj']:
+        wkw['units'] = Units(quantity=qu, length=lu, act_energy=u)
+    else:
+        wkw.update({'quantity_unit': qu, 'length_unit': lu, 'act_energy_unit': u})
+    evs, mism = [], []
+    cov = ['handed:ea:' + hc['easrc'], 'handed:a:' + hc['asrc'], 'handed:b:' + hc['bsrc'],
+           'handed:ads:%s:%s' % (ads, method), 'handed:mw:%s' % bool(hc['mw']),
+           'handed:units:' + ('obj' if case['uobj'] else 'str'), 'handed:actunit:' + u,
+           'handed:opt:ea=%s' % hc['ea'], 'handed:opt:a=%s' % hc['a'], 'handed:opt:stick=%s' % hc['stick'],
+           'handed:opt:beta=%s' % hc['beta'], 'handed:ts:' + reg] + \
+          ['handed:ads=%s:%s=%s' % (ads, k, hc[k]) for k in ('ea', 'a', 'stick', 'beta')]
+    tags = {'cls': 'SurfaceReaction', 'ts': 'species' if has_ts else 'none', 'cov': cov}
+
+    def written():
+        """(A, b, Ea) as written by to_omkm_yaml and by to_cti"""
+        y = rx.to_omkm_yaml(**wkw)
+        rc = y['sticking-coefficient' if ads else 'rate-constant']
+        t = rx.to_cti(**wkw)
+        m_ = re.search(r'stick\(([^,]+),([^,]+),([^)]+)\)' if ads else r'\[([^,\]]+),([^,\]]+),([^\]]+)\]', t)
+        return y, (_num_of(rc['A']), _num_of(rc['b']), _num_of(rc['Ea'])), tuple(float(g) for g in m_.groups())
+    try:
+        y, (yA, yb, yEa), (tA, tb, tEa) = written()
+    except Exception as ex:                      # noqa
+        evs.append({'ev': 'raised', 'fn': 'to_omkm_yaml/to_cti', 'msg': ('%s: %s' % (type(ex).__name__, ex))[:300]})
+        return evs, mism, tags
+
+    def same(name, got, want, cti=False):
+        w = float('%.5e' % want) if cti else float(want)
+        if got != w:
+            mism.append({'getter': name, 'tlc': want, 'code': got})
+    # ---- Ea
+    if hc['easrc'] == 'given':
+        want = c.convert_unit(given['ea'], initial='kcal/mol', final=u)
+    else:
+        want = _call(evs, hc['easrc'], lambda: getattr(rx, hc['easrc'])(units=u, T=T, P=P))
+    if want is not None:
+        same('to_omkm_yaml.Ea', yEa, want)
+        same('to_cti.Ea', tEa, want, cti=True)
+    if hc['easrc'] != 'given':
+        q = 'H' if hc['easrc'] == 'get_H_act' else 'G'
+        st = lambda s_: getattr(rx, 'get_%s_state' % q)(state=s_, units=u, T=T, P=P)      # noqa
+        r = _call(evs, 'get_%s_state' % q, lambda: st('reactants'))
+        p_ = _call(evs, 'get_%s_state' % q, lambda: st('products'))
+        ts = _call(evs, 'get_%s_state' % q, lambda: st('ts')) if has_ts else 0.0
+        if None not in (r, p_, ts):
+            evs.append({'ev': 'clamp', 'cls': 'SurfaceReaction', 'q': q, 'form': u, 'dir': 'fwd', 'hasTS': has_ts,
+                        'handed': True, 'r': to_dec(r), 'p': to_dec(p_), 'ts': to_dec(ts), 'val': to_dec(yEa)})
+    # ---- A
+    src = hc['asrc']
+    if src == 'half':
+        same('to_omkm_yaml.A', yA, 0.5)
+        same('to_cti.A', tA, 0.5, cti=True)
+    elif src in ('given_stick', 'given_A'):
+        g = given['stick'] if src == 'given_stick' else given['a']
+        same('to_omkm_yaml.A', yA, g)
+        same('to_cti.A', tA, g, cti=True)
+    else:
+        same('to_cti.A', tA, yA, cti=True)
+        phases['terrace'].site_density *= 10.0
+        try:
+            y10 = written()[1][0]
+        finally:
+            phases['terrace'].site_density *= 0.1
+        uf = c.convert_unit(initial='mol', final=qu) / c.convert_unit(initial='cm2', final=lu + '2')
+        evs.append({'ev': 'A', 'cls': 'SurfaceReaction', 'T': to_dec(T), 'kb': to_dec(c.kb('J/K')),
+                    'h': to_dec(c.h('J s')), 'route': 'nots', 'perT': True, 'dir': 'fwd', 'handed': True,
+                    'dS': [0, 0], 'm': [0, 0], 'x': [0, 0], 'ex': [1, 0], 'rs': [[k, n] for k, n in rs],
+                    'sdA': to_dec(sd), 'sdB': to_dec(sd), 'op': 'sum', 'mw': to_dec(sd), 'uf': to_dec(uf),
+                    'ok': core.finite(yA), 'val': to_dec(yA) if core.finite(yA) else [0, 0],
+                    'ok10': core.finite(y10), 'val10': to_dec(y10) if core.finite(y10) else [0, 0]})
+    # ---- b, Motz-Wise, sticking species
+    wb = {'given': given['beta'], 'zero': 0.0, 'one': 1.0}[hc['bsrc']]
+    same('to_omkm_yaml.b', yb, wb)
+    same('to_cti.b', tb, wb)
+    if ads:
+        if y.get('Motz-Wise') is not bool(hc['mw']):
+            mism.append({'getter': 'to_omkm_yaml.Motz-Wise', 'tlc': bool(hc['mw']), 'code': y.get('Motz-Wise')})
+        if y.get('sticking-species') != 'GAS1':
+            mism.append({'getter': 'to_omkm_yaml.sticking-species', 'tlc': 'GAS1', 'code': y.get('sticking-species')})
+    return evs, mism, tags
+
+
+EXEC = {'handed': exec_handed, 'clamp_tlc': exec_clamp_tlc, 'clamp_rand': exec_clamp_rand, 'bep': exec_bep,
         'site': exec_site, 'a_rand': exec_a_rand}
 
 
@@ -505,59 +758,145 @@ def execute(case):
 
 
 # --------------------------------------------------------------------------
+TFORMS = ['float', 'int', 'np', 'npint']
+SLOPES = [('zero', 0.0), ('one', 1.0), ('near0', 1e-6), ('near1', 0.999999), ('interior', None), ('interior', None)]
+ICPTS = [('zero', 0.0), ('sixty', 60.0), ('near0', 1e-6), ('near60', 59.999999), ('interior', None), ('interior', None)]
+BEP_COMBOS = [(cls, bcls) for cls in ('Reaction', 'ChemkinReaction', 'SurfaceReaction') for bcls in ('base', 'omkm')]
+OMKM_ROUTES = [['synthesis', 'BEP1_syn_0001'], ['cleavage', 7], [None, None], ['cleavage', 'r_0012'], ['synthesis', 3.0]]
+A_UNIT_FORMS = list(L.A_UNITS) + [['obj', q, l] for q, l in (('molec', 'cm'), ('mol', 'm'), ('particle', 'A'),
+                                                           ('molecule', 'inch'), ('mol', 'ft'), ('molec', 'km'))]
+
+
 def make_cases(ctx, data, rnd):
     cases = []
     seed = lambda: rnd.randrange(1 << 30)                                           # noqa
+    rot = {'r': ctx.seed, 'e': ctx.seed, 'a': ctx.seed}
+
+    def runits(k):
+        out = [L.R_UNITS[(rot['r'] + j) % len(L.R_UNITS)] for j in range(k)]
+        rot['r'] += k
+        return out
+
+    def eunits(k):
+        pool = [u for u in L.ENERGY_UNITS if u != 'kcal/mol']
+        out = [pool[(rot['e'] + j) % len(pool)] for j in range(k)]
+        rot['e'] += k
+        return out
+
+    def aunits(k):
+        out = [A_UNIT_FORMS[(rot['a'] + j) % len(A_UNIT_FORMS)] for j in range(k)]
+        rot['a'] += k
+        return out
     for c in data['clamp']:
         for cls in ('ChemkinReaction', 'SurfaceReaction'):
             for q in ('H', 'G'):
-                cases.append({'kind': 'clamp_tlc', 'cls': cls, 'q': q, 'c': c, 'cseed': seed()})
+                cases.append({'kind': 'clamp_tlc', 'cls': cls, 'q': q, 'c': c, 'unit': runits(1)[0], 'cseed': seed()})
     for i in range(ctx.pick(500, 12000)):
         regH = REGIMES[i % len(REGIMES)]
         regG = 'none' if regH == 'none' else REGIMES[1 + (i // len(REGIMES)) % (len(REGIMES) - 1)]
         cases.append({'kind': 'clamp_rand', 'cls': ('ChemkinReaction', 'SurfaceReaction')[(i // 3) % 2],
-                      'regH': regH, 'regG': regG, 'cseed': seed()})
+                      'regH': regH, 'regG': regG, 'units': runits(2), 'tform': TFORMS[(i // 2) % 4],
+                      'ctor': ('init', 'from_string')[(i // 5) % 2], 'int_st': (i // 7) % 3 == 0, 'cseed': seed()})
     # BEP: the TLC slope table on exact slopes, then random slopes / intercepts
     table = {}
     for sc in data['slope']:
         table.setdefault((sc['desc'], sc['a2']), []).append(sc)
-    combos = [('Reaction', 'base'), ('SurfaceReaction', 'omkm'), ('ChemkinReaction', 'base'), ('Reaction', 'omkm'),
-              ('SurfaceReaction', 'base')]
     k = 0
     for (desc, a2), scs in sorted(table.items()):
-        for cls, bcls in combos[:ctx.pick(2, 5)]:
-            if cls == 'ChemkinReaction' and desc.endswith('_E'):
-                cls = 'Reaction'
+        for j in range(ctx.pick(2, 6)):
+            cls, bcls = BEP_COMBOS[(k + ctx.seed) % 6]
             k += 1
             cases.append({'kind': 'bep', 'desc': desc, 'bcls': bcls, 'cls': cls, 'slope': a2 / 2.0,
-                          'icpt': float(rnd.choice([0, 8, 20, 60])), 'table': scs, 'uh': k % 2 == 0, 'cseed': seed()})
-    for i in range(ctx.pick(320, 6000)):
+                          'skind': {0: 'zero', 1: 'interior', 2: 'one'}[a2],
+                          'stype': 'int' if (a2 != 1 and k % 3 == 0) else 'float',
+                          'icpt': float(rnd.choice([0, 8, 20, 60])), 'ikind': 'interior', 'table': scs,
+                          'uh': k % 2 == 0, 'via': ('delta', 'H', 'E')[k % 3], 'units': eunits(2),
+                          'runit': runits(1)[0], 'omkm': OMKM_ROUTES[k % 5], 'cseed': seed()})
+    for i in range(ctx.pick(336, 6000)):
         desc = L.DESCRIPTORS[i % 8]
-        cls, bcls = combos[(i // 8) % len(combos)]
-        if cls == 'ChemkinReaction' and desc.endswith('_E'):
-            cls = 'SurfaceReaction'
+        cls, bcls = BEP_COMBOS[(i // 8) % 6]                 # 48 (descriptor, class, BEP class) combinations
+        sk, sv = SLOPES[(i // 3) % 6]
+        ik, iv = ICPTS[(i // 5) % 6]
+        stype = ('float', 'np', 'float', 'int')[(i // 2) % 4]
+        if stype == 'int' and (sk not in ('zero', 'one') or ik not in ('zero', 'sixty')):
+            stype = 'float'
         cases.append({'kind': 'bep', 'desc': desc, 'bcls': bcls, 'cls': cls,
-                      'slope': rnd.choice([0.0, 1.0, rnd.uniform(0., 1.), rnd.uniform(0., 1.)]),
-                      'icpt': rnd.choice([0.0, 60.0, rnd.uniform(0., 60.), rnd.uniform(0., 60.)]),
-                      'uh': i % 3 != 0, 'cseed': seed()})
+                      'slope': rnd.uniform(0., 1.) if sv is None else sv, 'skind': sk,
+                      'icpt': rnd.uniform(0., 60.) if iv is None else iv, 'ikind': ik, 'stype': stype,
+                      'uh': i % 3 != 0, 'via': ('delta', 'H', 'E')[(i // 48 + i) % 3], 'units': eunits(2),
+                      'runit': runits(1)[0], 'tform': TFORMS[(i // 7) % 4], 'omkm': OMKM_ROUTES[(i // 16) % 5],
+                      'ctor': ('init', 'from_string')[(i // 11) % 2], 'cseed': seed()})
+    # the 'int' slope / intercept combination needs both on a boundary: force a few
+    for i, (sl, ic) in enumerate([(0, 0), (1, 60), (1, 0), (0, 60)] * 2):
+        cls, bcls = BEP_COMBOS[(i + ctx.seed) % 6]
+        cases.append({'kind': 'bep', 'desc': L.DESCRIPTORS[(i * 3 + ctx.seed) % 8], 'bcls': bcls, 'cls': cls,
+                      'slope': sl, 'skind': 'one' if sl else 'zero', 'icpt': ic, 'ikind': 'sixty' if ic else 'zero',
+                      'stype': 'int', 'uh': True, 'via': 'E', 'units': eunits(2), 'runit': runits(1)[0],
+                      'cseed': seed()})
     # site cases of TLC (exact numbers), each on both classes, with and without a transition state
     for j, sc in enumerate(data['site']):
         for cls in ('ChemkinReaction', 'SurfaceReaction'):
             for has_ts in ((False, True) if not ctx.quick else ((j % 2) == 0,)):
                 cases.append({'kind': 'site', 'cls': cls, 'rs': sc['rs'], 'n': sc['n'], 'gas': sc['gas'],
                               'hasTS': has_ts, 'exact': True, 'all_ops': not ctx.quick or j % 3 == 0,
-                              'cseed': seed()})
+                              'op': L.SDEN_OPS[j % 4], 'aunits': aunits(1), 'cseed': seed()})
     kinds = ['gas', 'surfA', 'surfB', 'bulk', 'surfA', 'surfB']
+    sds = ['low', 'high', 'low+', 'high-', 'interior', 'interior']
     for i in range(ctx.pick(500, 8000)):
         n = rnd.randint(1, 3)
         rs = [[rnd.choice(kinds), rnd.choice([1, 1, 2])] for _ in range(n)]
         if sum(k for kind, k in rs if kind.startswith('surf')) > 3:
             rs = rs[:1]
         cases.append({'kind': 'site', 'cls': ('ChemkinReaction', 'SurfaceReaction')[i % 2], 'rs': rs,
-                      'hasTS': i % 4 != 0, 'cseed': seed()})
+                      'hasTS': i % 4 != 0, 'aunits': aunits(4), 'tform': TFORMS[(i // 2) % 4],
+                      'sd': sds[(i // 4) % 6], 'n_sites': (None, 2)[(i // 6) % 2],
+                      'ctor': ('init', 'from_string')[(i // 3) % 2], 'omit_T': i % 10 == 7,
+                      'omit_op': i % 5 == 2, 'use_q': (i // 2) % 4 == 1, 'cseed': seed()})
     for i in range(ctx.pick(150, 3000)):
-        cases.append({'kind': 'a_rand', 'cseed': seed()})
+        cases.append({'kind': 'a_rand', 'tform': TFORMS[i % 4], 'use_q': i % 5 == 3, 'cseed': seed()})
+    # what the OpenMKM writers hand out: every option combination of Kinetics.tla's HandedCfg
+    hregs = ['none', 'below', 'between', 'above', 'high']
+    for j, hc in enumerate(sorted(data['handed'], key=lambda d: sorted(d.items()))):
+        cases.append({'kind': 'handed', 'c': hc, 'reg': hregs[j % 5], 'actunit': L.ACT_UNITS[(j // 2) % 4],
+                      'aunit': [L.QUANTITY_UNITS[(j // 3) % 4], L.LENGTH_UNITS[(j // 5) % 6]],
+                      'uobj': (j // 2) % 3 == 0, 'cseed': seed()})
     return cases
+
+
+def required_coverage():
+    """Every input class the quantifier names; a class never exercised makes the run vacuous."""
+    need = ['runit:' + u for u in L.R_UNITS] + ['eunit:' + u for u in L.ENERGY_UNITS]
+    need += ['aunit:' + u for u in L.A_UNITS] + ['aunit:Units:molec/cm2', 'aunit:Units:mol/m2']
+    need += ['bep:%s:%s' % (d, cls) for d in L.DESCRIPTORS for cls in ('Reaction', 'ChemkinReaction', 'SurfaceReaction')]
+    need += ['bepcls:base', 'bepcls:omkm']
+    need += ['via:Reaction:%s:%s' % (r, f) for r in ('delta', 'H', 'E') for f in ('dimless', 'units')]
+    need += ['via:%s:%s:%s' % (cls, r, f) for cls in ('ChemkinReaction', 'SurfaceReaction') for r in ('delta', 'E')
+             for f in ('dimless', 'units')]
+    need += ['uh:' + f for f in ('dimless', 'kcal/mol', 'J/mol', 'act', 'act:kcal/mol')]
+    need += ['T:' + t for t in TFORMS] + ['T:default']
+    need += ['ctor:%s:%s' % (cls, k) for cls in ('Reaction', 'ChemkinReaction', 'SurfaceReaction') for k in ('init', 'from_string')]
+    need += ['stoich:int', 'stoich:float']
+    need += ['slope:' + k for k in ('zero', 'one', 'near0', 'near1', 'interior')]
+    need += ['icpt:' + k for k in ('zero', 'sixty', 'near0', 'near60', 'interior')]
+    need += ['stype:float', 'stype:int', 'stype:np']
+    need += ['omkm:synthesis:str', 'omkm:cleavage:int', 'omkm:cleavage:str', 'omkm:None:NoneType']
+    need += ['op:%s:%s' % (cls, op) for cls in ('ChemkinReaction', 'SurfaceReaction') for op in L.SDEN_OPS] + ['op:default']
+    need += ['n:ChemkinReaction:%d' % k for k in range(4)] + ['n:SurfaceReaction:%d' % k for k in (1, 2, 3)]
+    need += ['sd:' + k for k in ('low', 'high', 'low+', 'high-', 'interior')] + ['n_sites:None', 'n_sites:2']
+    need += ['Aroute:Reaction:entropy', 'Aroute:Reaction:q']
+    need += ['Aroute:%s:%s' % (cls, r) for cls in ('ChemkinReaction', 'SurfaceReaction')
+             for r in ('entropy', 'q', 'nots', 'noentropy')]
+    need += ['handed:ea:' + x for x in ('given', 'get_H_act', 'get_G_act')]
+    need += ['handed:a:' + x for x in ('half', 'given_stick', 'given_A', 'get_A_no_entropy')]
+    need += ['handed:b:' + x for x in ('given', 'zero', 'one')]
+    need += ['handed:ads:%s:%s' % (a, m) for a in (True, False) for m in ('get_H_act', 'get_G_act')]
+    need += ['handed:mw:True', 'handed:mw:False', 'handed:units:obj', 'handed:units:str']
+    need += ['handed:actunit:' + u for u in L.ACT_UNITS]
+    need += ['handed:opt:%s=%s' % (k, v) for k in ('ea', 'a', 'stick', 'beta') for v in ('none', 'zero', 'val')]
+    need += ['handed:ts:' + r for r in ('none', 'below', 'between', 'above', 'high')]
+    need += ['handed:ads=%s:%s=%s' % (a, k, v) for a in (True, False) for k in ('ea', 'a', 'stick', 'beta')
+             for v in ('none', 'zero', 'val')]
+    return need
 
 
 def _signature(case, tags):
@@ -568,12 +907,16 @@ def _signature(case, tags):
         return ['clamp_rand', case['cls'], case['regH'], case['regG'], case['cseed']]
     if case['kind'] == 'bep':
         return ['bep', case['cls'], case['bcls'], case['desc'], case['slope'], case['icpt'], case['cseed']]
+    if case['kind'] == 'handed':
+        return ['handed', sorted(case['c'].items()), case['reg'], case['actunit'], case['aunit'], case['uobj']]
     if case['kind'] == 'site':
         return ['site', case['cls'], case['rs'], case['hasTS'], case.get('exact', False), case['cseed']]
     return ['a_rand', case['cseed']]
 
 
 def _nontrivial(case, events):
+    if case['kind'] == 'handed':
+        return True                       # every handed case compares written values by equality
     if not events:
         return False
     if case['kind'] in ('clamp_tlc',):
@@ -586,6 +929,8 @@ def _tags_of_event(case, ctags, e):
     t = {'kind': case['kind'], 'cls': e.get('cls', ctags.get('cls')), 'ts': ctags.get('ts')}
     if ctags.get('nosite'):
         t['nosite'] = True
+    if e.get('handed'):
+        t['handed'] = True
     for k in ('q', 'dir', 'desc', 'route', 'op', 'fn'):
         if k in e:
             t[k] = e[k]
@@ -633,7 +978,10 @@ def run(ctx):
     results = core.pmap(execute, cases)
     traces = []
     skipped = 0
+    cov = {}
     for tid, (case, (events, mism, ctags)) in enumerate(zip(cases, results)):
+        for key in (ctags.get('cov') or []):
+            cov[key] = cov.get(key, 0) + 1
         if events is None:
             raise core.MachineryError('driver failed while building case %r:\n%s' % (case, mism))
         ctx.evaluated()
@@ -642,11 +990,14 @@ def run(ctx):
         if _nontrivial(case, events):
             ctx.nontrivial(_signature(case, ctags))
         for m in mism:
-            ctx.violation('ReplayState', case, tags={'kind': case['kind'], 'cls': ctags.get('cls'),
-                                                     'getter': m.get('getter'), 'dir': m.get('dir')}, detail=m)
+            ctx.violation('ReplayState' if case['kind'] != 'handed' else 'HandedValue', case,
+                      tags={'kind': case['kind'], 'cls': ctags.get('cls'),
+                            'getter': m.get('getter'), 'dir': m.get('dir')}, detail=m)
         traces.append((tid, events))
         if tid % 997 == 0:
             ctx.sample({k: v for k, v in case.items() if k != 'table'})
+        elif case['kind'] == 'handed' and tid % 101 == 0:
+            ctx.sample(case)
     ctx.coverage['cases_without_A_definition'] = skipped
     fails, stats = core.validate_traces('Trace_Kinetics', 'Trace_Kinetics', traces)
     ctx.count('traces_validated_against_impl', len([t for t in traces if t[1]]))
@@ -657,10 +1008,14 @@ def run(ctx):
             key = e['ev'] + (':' + e['route'] if e['ev'] == 'A' else '')
             per_ev[key] = per_ev.get(key, 0) + 1
     ctx.coverage['events'] = per_ev
+    ctx.coverage['input_classes'] = dict(sorted(cov.items()))
     if ctx.replay_case is None:
-        for need in ('clamp', 'bep', 'bepdiff', 'bepvia', 'bepuh', 'A:entropy', 'A:nots'):
+        for need in ('clamp', 'bep', 'bepdiff', 'bepvia', 'bepuh', 'A:entropy', 'A:nots', 'A:q'):
             if per_ev.get(need, 0) == 0:
                 raise core.MachineryError('vacuous run: no %s observation was recorded' % need)
+        missing = [k for k in required_coverage() if cov.get(k, 0) == 0]
+        if missing:
+            raise core.MachineryError('vacuous run: input classes never exercised: %s' % ', '.join(missing))
     for tid, idx, clause in fails:
         case = cases[tid]
         e = results[tid][0][idx]
